@@ -244,14 +244,19 @@ def startup_part(work, rep, tier, seed, prop):
     c = {"MaxEntries": 2, "Origins": {"o1", "o2"}, "SchemePanics": True}
     r = require_ok(tlc(work, "Omni", cfg_text(spec="SSpec", constants=c, invariants=["MapAndFeedersAgree"], properties=["StartsIffCoherent", "CoherentStarts"]),
                        name="MC_Omni_startup", timeout=3000), "design check Omni start-up")
-    rep.add_model("Omni start-up (all configurations of 1..2 entries: 2 origins x 2 key classes x 7 feeder classes x 4 URL classes)", r)
+    rep.add_model("Omni start-up (all configurations of 1..2 entries: 2 origins x 3 key classes x 7 feeder classes x 4 URL classes)", r)
     lr = tlc(work, "Omni", cfg_text(spec="SSpec", constants=dict(c, MaxEntries=1), invariants=["EmitStart"]), name="list-omni1", timeout=600)
     one = sorted(set(lr.prints("START")))
     lr2 = tlc(work, "Omni", cfg_text(spec="SSpec", constants=c, invariants=["EmitStart"]), name="list-omni2", timeout=3000)
     two = [x for x in sorted(set(lr2.prints("START"))) if len(json.loads(x)["entries"]) == 2]
     rng.shuffle(two)
     dups = [x for x in two if json.loads(x)["entries"][0]["origin"] == json.loads(x)["entries"][1]["origin"]]
-    take = one + dups[:40 if tier == "quick" else 400] + two[:80 if tier == "quick" else 1500]
+    def startable(e):
+        return e["feeder"] in ("tiles", "sumdb", "none") and e["url"] == "ok"
+    # always: a genuine entry together with one whose key string borrows the genuine key's name and hash (either order)
+    stale = [x for x in two if sorted(e["key"] for e in json.loads(x)["entries"]) == ["ok", "stalehash"] and all(startable(e) for e in json.loads(x)["entries"])
+             and json.loads(x)["entries"][0]["origin"] != json.loads(x)["entries"][1]["origin"]]
+    take = one + stale[:8 if tier == "quick" else 60] + dups[:40 if tier == "quick" else 400] + two[:80 if tier == "quick" else 1500]
     gp, tp = work.path("gencfg.jsonl"), work.path("start.ndjson")
     open(gp, "w").write("\n".join(take) + "\n")
     o, dt = run_driver(["config", "-in", gp, "-out", tp, "-repo", REPO, "-dir", work.sub("cfg"), "-workers", str(NCPU)], timeout=3000)
